@@ -108,6 +108,9 @@ class SimRun:
                 var = lsl.Var(pending[vi], dist, name=f"var{vi}")
                 var.value_node.name = f"n{vi}"
                 var.var_value_node.name = f"n{pi}"
+                if p.get("reassign"):
+                    # the distribution node is fetched and assigned back (as after editing it): still the variable's
+                    var.dist_node = var.dist_node
                 self.nodes[vi], self.nodes[pi], self.nodes[i] = var.value_node, var.var_value_node, dist
                 self.vars[vi] = var
                 self.dist_of_var[vi] = i
@@ -261,6 +264,10 @@ def gen_ops(rng, plan, nops):
 
 def random_trace(rng):
     plan = gen_plan(rng)
+    if rng.random() < 0.3:
+        for p in plan:
+            if p["kind"] == "d" and rng.random() < 0.6:
+                p["reassign"] = True
     copy = rng.random() < 0.25        # the model is built with copy=True (it holds copies of the nodes)
     run = SimRun(plan, copy=copy)
     hdr = run.header()
